@@ -2,7 +2,7 @@
 from . import slices as SL
 
 FN_FOR = {
-    'C01': ['fn/deps-decl', 'fn/patterns', 'fn/attrs-async', 'fn/qualifiers'],
+    'C01': ['fn/deps-decl', 'fn/patterns', 'fn/patterns-2params', 'fn/attrs-async', 'fn/qualifiers'],
     'C02': ['fn/visibility', 'fn/qualifiers', 'fn/attrs-async', 'fn/patterns'],
     'C03': ['fn/deps-decl', 'fn/deps-decl-2generics', 'fn/qualifiers', 'fn/attrs-async'],
     'C04': ['fn/deps-decl', 'fn/deps-decl-2generics', 'fn/opts/'],
@@ -14,7 +14,7 @@ FN_FOR = {
     'C13': ['fn/visibility'],
     'C14': ['fn/attrs-async', 'fn/deps-decl'],
     'C15': ['fn/deps-decl', 'fn/patterns', 'fn/attrs-async', 'fn/qualifiers', 'fn/symbolic-names'],
-    'C16': ['fn/patterns', 'fn/symbolic-names'],
+    'C16': ['fn/patterns', 'fn/patterns-2params', 'fn/symbolic-names'],
     'C18': ['fn/attrs-async', 'fn/patterns'],
     'C19': ['fn/opts/entrait', 'fn/attrs-async', 'fn/deps-decl'],
     'C20': ['fn/deps-decl', 'fn/patterns', 'fn/attrs-async', 'fn/opts/entrait'],
